@@ -1,5 +1,6 @@
 import RpylibModel.Basic.Proto
 import RpylibModel.Model.Samplers
+import Std.Data.HashMap
 open Rpylib
 
 /-- requests (lists are `[a,b,c]`; cells are answered as `[state,lo,hi;state,lo,hi;…]`):
@@ -20,6 +21,10 @@ open Rpylib
   table-law <slots> <J> <q> <n>   -> idealised law for states 0..n-1
   ad1-draw <w> <o> <pLeft> <us>   -> axis indices
   ad1-cells <w> <o> <pLeft>       -> cells
+  adnd-draw <T> <us>              -> states (`i:j:…` axis indices, `X` for "beyond the last bucket": IndexError)
+  adnd-cells <T>                  -> cells `[i:j,lo,hi;…]` (uniforms `lo < u ≤ hi`)
+  adnd-build <origins> <sizes> <low 0/1> <M keys> <M values> -> `<boxes> <isAxis> <cumP> <axisCum>` of `_pre_computation`
+    where <T> = <boxes [l0,r0,l1,r1;…]> <cumP> <isAxis 0/1 list> <axisCum [c,c;;c,…]> <M keys [l0,r0,…;…]> <M values>
 -/
 def showCells (cs : List (Nat × Rat × Rat)) : String :=
   showListList id (cs.map (fun c => [toString c.1, showRat c.2.1, showRat c.2.2]))
@@ -39,8 +44,47 @@ partial def parseTree : List Int → List Rat → Option (Huffman.Tree × List I
       | [] => none
       | v :: vs => some (.leaf s.toNat v, rest, vs)
 
+def pairUp : List Nat → AdaptedNd.Box
+  | l :: r :: rest => (l, r) :: pairUp rest
+  | _ => []
+
+def flat (b : AdaptedNd.Box) : List Nat := b.flatMap (fun lr => [lr.1, lr.2])
+
+/-- the tables of the n-d adapted sampler from the wire; the box-mass table is a finite map (0 elsewhere) -/
+def parseNd (boxes cum isax axc mk mv : String) : Option AdaptedNd.Tables := do
+  let boxes ← parseListListWith? parseNat? boxes
+  let cum ← parseRatList? cum
+  let isax ← parseNatList? isax
+  let axc ← parseListListWith? parseRat? axc
+  let mk ← parseListListWith? parseNat? mk
+  let mv ← parseRatList? mv
+  if boxes.length != cum.length || boxes.length != isax.length || boxes.length != axc.length || mk.length != mv.length then none
+  let tbl : Std.HashMap (List Nat) Rat := (mk.zip mv).foldl (fun h kv => h.insert kv.1 kv.2) {}
+  let buckets := (List.range boxes.length).map (fun i =>
+    ({ box := pairUp (boxes.getD i []), cumP := cum.getD i 0, isAxis := isax.getD i 0 != 0, axisCum := axc.getD i [] } : AdaptedNd.Bucket))
+  some ⟨buckets, fun b => tbl.getD (flat b) 0⟩
+
+def showState (s : List Nat) : String := ":".intercalate (s.map toString)
+
 def step (t : List String) : String :=
   match t with
+  | ["adnd-draw", boxes, cum, isax, axc, mk, mv, us] =>
+    match parseNd boxes cum isax axc mk mv, parseRatList? us with
+    | some T, some us => showList (fun u => match AdaptedNd.draw T u with | some s => showState s | none => "X") us
+    | _, _ => "bad-op"
+  | ["adnd-build", os, ns, low, mk, mv] =>
+    match parseNatList? os, parseNatList? ns, parseNat? low, parseListListWith? parseNat? mk, parseRatList? mv with
+    | some os, some ns, some low, some mk, some mv =>
+      let tbl : Std.HashMap (List Nat) Rat := (mk.zip mv).foldl (fun h kv => h.insert kv.1 kv.2) {}
+      let T := AdaptedNd.build (fun b => tbl.getD (flat b) 0) (low != 0) (os.zip ns)
+      showListList toString (T.buckets.map (fun bk => flat bk.box)) ++ " " ++
+        showNatList (T.buckets.map (fun bk => if bk.isAxis then 1 else 0)) ++ " " ++
+        showRatList (T.buckets.map (·.cumP)) ++ " " ++ showListList showRat (T.buckets.map (·.axisCum))
+    | _, _, _, _, _ => "bad-op"
+  | ["adnd-cells", boxes, cum, isax, axc, mk, mv] =>
+    match parseNd boxes cum isax axc mk mv with
+    | some T => showListList id ((AdaptedNd.cells T).map (fun c => [showState c.1, showRat c.2.1, showRat c.2.2]))
+    | none => "bad-op"
   | ["inv-run", adm, mf, prob, ms, us] =>
     match parseNatList? adm, parseNat? mf, parseRatList? prob, parseNat? ms, parseRatList? us with
     | some adm, some mf, some prob, some ms, some us =>
